@@ -52,6 +52,7 @@ def import_cases(tmp):
   return root, files, cased + [
       ('import:single', 'import lib.a.one.H;\nQ(x) :- H(x);\n'),
       ('import:two-files', 'import lib.a.one.H;\nimport lib.b.util.G;\nQ(x) :- H(x), G(x);\n'),
+      ('import:two-files-reverse-alphabetical', 'import lib.b.util.G;\nimport lib.a.one.H;\nQ(x) :- H(x), G(x);\n'),
       ('import:same-base-name', 'import lib.a.util.F;\nimport lib.b.util.G;\nQ(x) :- F(x), G(x);\n'),
       ('import:unused', 'import lib.a.one.H;\nQ(x) :- x == 1;\n'),
       ('import:missing-file', 'import lib.c.none.H;\nQ(x) :- H(x);\n'),
